@@ -182,10 +182,9 @@ def mine_boundflow(w):
 
 def assigned_params(f):
     out = []
-    for p in f.get('params', []):
-        for b in pat_bindings(p):
-            if b['n'] != 'self' and dlint.has_assigned(b.get('t')):
-                out.append((b['n'], b['i'], b.get('t')))
+    for tok, i, t, n in valflow.param_table(f):
+        if n != 'self' and dlint.has_assigned(t):
+            out.append((tok, i, t))
     return out
 
 
@@ -285,7 +284,7 @@ def mine_symupdates(w):
 def ret_cover(f):
     """[(rendered returned expression, parameters that the returned value or the conditions guarding the return depend on)] for explicit `return`s"""
     from ..core import children, expr_str
-    params = [(b['n'], b['i'], b.get('t')) for p in f.get('params', []) for b in pat_bindings(p) if b['n'] not in ('self', 'layouter', 'region', 'offset')]
+    params = [(tok, i, t) for tok, i, t, n in valflow.param_table(f) if n not in ('self', 'layouter', 'region', 'offset')]
     if not params:
         return []
     vf = valflow.ValFlow(f, sources=params)
@@ -581,8 +580,9 @@ def run_d(ck, w, prop, floors):
         cur = bound_flows(f)
         for r in rs:
             ok = (r['param'], r['reaches']) in cur
-            ck.record(f'{P}.D7', f'{fx}|{r["param"]}|{short(r["reaches"])}', ok, f'`{r["param"]}` reaches {short(r["reaches"])} by value',
-                      f'{fx}: the declared bound `{r["param"]}` no longer reaches {r["reaches"]} by value (it may still decide how many checks run, but not '
+            pn_ = valflow.param_name(f, r['param'])
+            ck.record(f'{P}.D7', f'{fx}|{r["param"]}|{short(r["reaches"])}', ok, f'`{pn_}` reaches {short(r["reaches"])} by value',
+                      f'{fx}: the declared bound `{pn_}` (parameter {r["param"]}) no longer reaches {r["reaches"]} by value (it may still decide how many checks run, but not '
                       f'their limits): the limit that call enforces is now independent of the declared bound', hirq.fn_loc(f))
     ck.count(f'{P}.D7 triples', len(rows7))
     # ------------------------------------------------------------------ D8
@@ -602,8 +602,9 @@ def run_d(ck, w, prop, floors):
         cur = arg_flows(f)
         for r in rs:
             have = cur.get((r['param'], r['reaches']), 0)
-            ck.record(f'{P}.D8', f'{fx}|{r["param"]}|{short(r["reaches"])}', have >= r['sites'], f'`{r["param"]}` reaches {short(r["reaches"])} at {have} site(s)',
-                      f'{fx}: input `{r["param"]}` reached {r["sites"]} call site(s) of {r["reaches"]} on the reference tree and reaches {have} now: a '
+            pn_ = valflow.param_name(f, r['param'])
+            ck.record(f'{P}.D8', f'{fx}|{r["param"]}|{short(r["reaches"])}', have >= r['sites'], f'`{pn_}` reaches {short(r["reaches"])} at {have} site(s)',
+                      f'{fx}: input `{pn_}` (parameter {r["param"]}) reached {r["sites"]} call site(s) of {r["reaches"]} on the reference tree and reaches {have} now: a '
                       f'constraint that consumed this input was dropped or re-routed to another value', hirq.fn_loc(f))
     ck.count(f'{P}.D8 triples', len(rows8))
     # ------------------------------------------------------------------ D9
@@ -611,15 +612,19 @@ def run_d(ck, w, prop, floors):
                        'inside a loop assigns on the reference tree — every arm still assigns it.  When one arm stops refreshing a loop-carried flag, the next '
                        'iteration decides with the value left by an older element.')
     rows9 = [r for r in load_rules('symupdate.json') if r['property'] == prop]
+    by9 = {}
     for r in rows9:
-        f = w.fn_x(r['fn'], required=False)
+        by9[r['fn']] = by9.get(r['fn'], 0) + r['sites']
+    for fx, total in sorted(by9.items()):
+        f = w.fn_x(fx, required=False)
         if f is None:
-            ck.bad(f'{P}.D9', f'{r["fn"]}:anchor', f'function {r["fn"]} of the symmetric-update table not found (needs triage)')
+            ck.bad(f'{P}.D9', f'{fx}:anchor', f'function {fx} of the symmetric-update table not found (needs triage)')
             continue
-        have = sym_updates(f).get(r['place'], 0)
-        ck.record(f'{P}.D9', f'{r["fn"]}|{r["place"]}', have >= r['sites'], f'`{r["place"]}` assigned in every arm ({have} site(s))',
-                  f'{r["fn"]}: `{r["place"]}` was assigned in every arm of an if/else inside a loop ({r["sites"]} site(s)) and is now assigned in only some arms '
-                  f'({have} symmetric site(s)): on the other arm the next iteration sees a stale value', hirq.fn_loc(f))
+        cur9 = sym_updates(f)
+        have = sum(cur9.values())
+        ck.record(f'{P}.D9', f'{fx}|symmetric-updates', have >= total, f'{have} place(s) assigned in every arm of an if/else inside a loop: {sorted(cur9)}',
+                  f'{fx}: {total} place(s) were assigned in every arm of an if/else inside a loop on the reference tree ({sorted(r["place"] for r in rows9 if r["fn"] == fx)}) '
+                  f'and {have} are now ({sorted(cur9)}): on the arm that stopped refreshing a loop-carried place the next iteration sees a stale value', hirq.fn_loc(f))
     ck.count(f'{P}.D9 places', len(rows9))
     # ------------------------------------------------------------------ D14
     ck.rule(f'{P}.D14', 'shortcut returns honour every operand: in a function that takes an optional constant factor (`multiplying_constant`), every early `return` '
@@ -627,21 +632,22 @@ def run_d(ck, w, prop, floors):
                         'Sibling rule over all implementations of ArithInstructions::mul (native chip, foreign field chip, gadgets).')
     n14 = 0
     for f in fns:
-        pnames = [b['n'] for p in f.get('params', []) for b in pat_bindings(p)]
-        if 'multiplying_constant' not in pnames:
+        ptab = valflow.param_table(f)
+        mc_tok = [tok for tok, i, t, n in ptab if n == 'multiplying_constant']
+        if not mc_tok:
             continue
-        operands = [x for x in pnames if x not in ('self', 'layouter', 'multiplying_constant', 'region', 'offset')]
+        operands = [tok for tok, i, t, n in ptab if n not in ('self', 'layouter', 'multiplying_constant', 'region', 'offset')]
         for e, cov, node in ret_cover(f):
             if not (set(cov) & set(operands)):
                 continue
             from ..core import expr_str
             from ..engines import valflow as _vf
-            val = set(_vf.ValFlow(f, sources=[(b['n'], b['i'], b.get('t')) for p in f['params'] for b in pat_bindings(p) if b['n'] in operands]).ev(node['e']))
+            val = set(_vf.ValFlow(f, sources=[(tok, i, t) for tok, i, t, n in ptab if tok in operands]).ev(node['e']))
             if not val:
                 continue            # the returned VALUE is not an operand (e.g. the constant zero): nothing to scale
             n14 += 1
-            ck.record(f'{P}.D14', f'{f["_xid"]}|return {e[:40]}', 'multiplying_constant' in cov, 'guarded by / built from the constant factor',
-                      f'{f["_nid"]}: `return {e}` hands back the operand {sorted(val)} whatever `multiplying_constant` is: with Some(k), k != 1, the product is '
+            ck.record(f'{P}.D14', f'{f["_xid"]}|return {e[:40]}', mc_tok[0] in cov, 'guarded by / built from the constant factor',
+                      f'{f["_nid"]}: `return {e}` hands back the operand {sorted(valflow.param_name(f, v) for v in val)} whatever `multiplying_constant` is: with Some(k), k != 1, the product is '
                       f'returned unscaled and no constraint ties it to k', hirq.fn_loc(f, node))
     ck.count(f'{P}.D14 operand shortcuts', n14)
     # ------------------------------------------------------------------ D13
